@@ -44,8 +44,14 @@ def well_posed(name, X):
 def equivariant(name, X, rng):
     d = X.shape[1]
     mu, S, nu = fit_mvstud(X)
-    for scale_exp in (0, 3, -3, 6, -6):
-        D = 10.0 ** (scale_exp * rng.uniform(0.3, 1.0, d)) if scale_exp else np.ones(d)
+    for scale_exp in (0, 3, -3, 6, -6, "mixed6", "mixed4"):
+        if isinstance(scale_exp, str):
+            # per-coordinate scalings at both ends of the stated range at once (ratios up to 1e12 between coordinates)
+            e = float(scale_exp[-1])
+            D = 10.0 ** (e * np.where(np.arange(d) % 2 == 0, 1.0, -1.0))
+            scale_exp = f"+-{int(e)} alternating"
+        else:
+            D = 10.0 ** (scale_exp * rng.uniform(0.3, 1.0, d)) if scale_exp else np.ones(d)
         t = rng.uniform(-5, 5, d) * D
         perm = rng.permutation(d)
         Y = (X * D + t)[:, perm]
